@@ -14,6 +14,7 @@ import (
 	"errors"
 	"fmt"
 	"github.com/tailscale/setec/types/api"
+	"io"
 	"math/rand/v2"
 	"net/netip"
 	"os"
@@ -23,6 +24,7 @@ import (
 	"strings"
 	"sync"
 	"sync/atomic"
+	"syscall"
 	"testing"
 	"time"
 
@@ -159,11 +161,12 @@ func TestC06(t *testing.T) {
 		refusalBursts(t, r, dir)
 		manyVersions(t, r, dir)
 		overlappingIdenticalGets(t, r, dir)
+		fileLogThatCannotBeSynced(t, r, dir)
 		for i := 0; i < r.N(6, 40); i++ {
 			neighbourOfAFailedRecord(t, r, dir, i)
 		}
 	}
-	r.Require("server_level_same_address_other_caller", "overlapping_identical_gets", "records_beside_a_failed_one", "calls_with_one_record", "calls_with_no_record", "denied_calls_recorded", "unchanged_conditional_gets", "write_failures_injected", "sync_failures_injected",
+	r.Require("calls_with_an_unsyncable_file_log", "server_level_same_address_other_caller", "overlapping_identical_gets", "records_beside_a_failed_one", "calls_with_one_record", "calls_with_no_record", "denied_calls_recorded", "unchanged_conditional_gets", "write_failures_injected", "sync_failures_injected",
 		"mutations_logged_before_effect", "concurrent_lines", "concurrent_durability_checks", "server_level_denials", "server_level_entitled_calls", "audit_file_reopens", "calls_after_a_torn_record", "refusals_in_bursts", "versions_accounted_for")
 	r.Rule("sequential: seeded histories of ~30 calls (all 9 operations, callers with random rule sets incl. none, names incl. empty and reserved); per call the records captured between invocation and return are compared with the expectation table; in a third of the histories the sink fails the Write or the Sync of one chosen record. Concurrent: 16 goroutines x mixed calls with unique (user, secret) pairs on a real audit file; every line must parse and the multiset of records must equal the expected one. Distinct = (operation, authorised?, records expected, failure injected)")
 }
@@ -1117,4 +1120,73 @@ func neighbourOfAFailedRecord(t *testing.T, r *evid.Run, dir string, idx int) {
 		}
 	}
 	r.Distinct("neighbour of a failed record / " + string(aop.Kind))
+}
+
+// fileLogThatCannotBeSynced: the audit log as the server opens it (audit.NewFile), on a path where appends
+// succeed and fsync does not (a named pipe: fsync reports EINVAL). A record that cannot be committed is no
+// record: every call that would disclose or change something fails, and nothing changes.
+func fileLogThatCannotBeSynced(t *testing.T, r *evid.Run, dir string) {
+	dbPath := filepath.Join(dir, "unsync.db")
+	d0, err := realdb.Open(dbPath, realdb.DummyKey("c06us"))
+	if err != nil {
+		t.Fatal(err)
+	}
+	d0.Put(realdb.Super(), "kept", []byte("kept-value"))
+	before := fileHash(dbPath)
+	fifo := filepath.Join(dir, "audit.fifo")
+	if err := syscall.Mkfifo(fifo, 0o600); err != nil {
+		r.Count("calls_with_an_unsyncable_file_log", 1)
+		r.Extra("unsyncable_log_note", "skipped: mkfifo: "+err.Error())
+		return
+	}
+	rd := make(chan *os.File, 1)
+	go func() {
+		f, _ := os.OpenFile(fifo, os.O_RDONLY, 0)
+		rd <- f
+		if f != nil {
+			io.Copy(io.Discard, f)
+		}
+	}()
+	aw, err := audit.NewFile(fifo)
+	if err != nil {
+		t.Fatal(err)
+	}
+	rf := <-rd
+	defer func() {
+		aw.Close()
+		if rf != nil {
+			rf.Close()
+		}
+	}()
+	probe, perr := os.OpenFile(fifo, os.O_WRONLY, 0)
+	if perr != nil {
+		t.Fatal(perr)
+	}
+	serr := probe.Sync()
+	probe.Close()
+	if serr == nil {
+		// (on this system a pipe can be synced after all: nothing to observe)
+		r.Count("calls_with_an_unsyncable_file_log", 1)
+		r.Extra("unsyncable_log_note", "fsync on a named pipe succeeds here; part skipped")
+		return
+	}
+	d, err := db.Open(dbPath, realdb.DummyKey("c06us"), aw)
+	if err != nil {
+		t.Fatal(err)
+	}
+	all := realdb.Caller("ops@verif", []refmodel.Rule{{Actions: actions, Patterns: []string{"*"}}})
+	for _, op := range []ops.Op{{Kind: ops.Get, Name: "kept"}, {Kind: ops.GetVer, Name: "kept", Version: 1}, {Kind: ops.GetCond, Name: "kept", Version: 7}, {Kind: ops.Info, Name: "kept"},
+		{Kind: ops.Put, Name: "kept", Value: []byte("other")}, {Kind: ops.Put, Name: "new", Value: []byte("x")}, {Kind: ops.Delete, Name: "kept"}, {Kind: ops.List}} {
+		res := ops.ApplyReal(d, all, op)
+		r.Eval(1)
+		r.Count("calls_with_an_unsyncable_file_log", 1)
+		r.Distinct("file log that cannot be synced, " + string(op.Kind))
+		if res.Class == refmodel.OK {
+			r.Violation("effect-without-record", -1, fmt.Sprintf("the audit log was opened with audit.NewFile on a path where fsync fails (a named pipe): %s succeeded (%s) although its record could not be committed", op, res), nil)
+			return
+		}
+	}
+	if fileHash(dbPath) != before {
+		r.Violation("effect-without-record", -1, "calls whose audit record could not be committed changed the database file", nil)
+	}
 }
